@@ -43,9 +43,10 @@ PROPS = {
         thorough=[G("M_C01a"), G("M_C01b"), T("M_NUMKEY"), T("M_HKEYS", observe="last"), T("M_UPSERT"), H(600, 60)],
         own=[parts("Outcome", "ErrClass", "Data", "Base", "Others", "Desc", "Catalog")],
         design_ref="DESIGN.md 6 C01",
-        level_text="Every (state, operation) transition of a bounded key->item model (3 keys, Put/Update/Delete/Get menus) is "
-                   "enumerated by TLC, replayed on both real clients, and every answer plus the full post-state (GetItem of every "
-                   "key, Scan, DescribeTable) is judged by TLC against the specification; exhaustive within the bounds.",
+        level_text="Every (state, operation) transition of a bounded key->item model (3 keys, Put/Update/Delete/Get menus incl. projections, the class of the la"
+               "st operation part of the state) is enumerated by TLC, replayed on both real clients, and every answer plus the full post-state (GetItem of e"
+               "very key, Scan, DescribeTable) is judged by TLC against the specification; exhaustive within the bounds. Added: number / binary typed keys, "
+               "pools of keys over hostile bytes, upserts whose expressions read the key attributes, seeded random histories.",
     ),
 }
 PROPS["C03"] = dict(
@@ -194,12 +195,12 @@ PROPS["C09"] = dict(
               G("M_KC"), dict(kind="R", gen="strings", n=6000, maxlen=2048)],
     own=[labparts("NoCrash", "Accepted", "Placeholders", "Reserved", "Outcome", "Result", "Modified"), parts("NoCrash")],
     design_ref="DESIGN.md 6 C09",
-    level_text="TLC spells every string of up to 3 (thorough: 4) tokens over a 20-token condition alphabet and a 17-token update alphabet "
-               "(names, placeholders, operators, delimiters, keywords in both letter cases, function names, path steps, an illegal character) "
-               "plus a seeded sample of longer ones; seeded random byte strings, token soups and pathological strings up to 4 KB are added. "
-               "Each runs through interpreter.Language and both client APIs in crash-proof child processes; TLC lexes and parses the BYTES with "
-               "Grammar.tla: a sentence must evaluate as Expr.tla says, a non-sentence must be rejected (error or the documented panic), and "
-               "nothing may crash, hang or succeed silently.",
+    level_text="TLC spells every string of up to 3 tokens and 5 000 (thorough 40 000) seeded samples each of 4, 5 and 6 tokens over a 20-token condition alp"
+               "habet and a 17-token update alphabet, and every single-token edit (delete, duplicate, swap, replace, insert) and every pair of parentheses a"
+               "round a span of 23 well-formed sentences; key-condition shapes go through Query; seeded random byte strings, token soups, alien bytes and pa"
+               "thological strings up to 4 KB are added. Each case runs through interpreter.Language and both client APIs in crash-proof child processes; TL"
+               "C lexes and parses the BYTES with Grammar.tla: a sentence must evaluate as Expr.tla says, a non-sentence must be rejected (error or the docu"
+               "mented panic), and nothing may crash, hang or succeed silently (strings beyond 700 bytes: totality only).",
 )
 PROPS["C16"] = dict(
     title="DynamoDB usage restrictions are detected",
@@ -285,12 +286,13 @@ PROPS["C11"] = dict(
               dict(scenario="indexreads", seeds=20, g=6, n=8)],
     own=[],
     design_ref="DESIGN.md 6 C11",
-    level_text="Seeded concurrent histories of both real clients (N concurrent ADD 1; racing attribute_not_exists puts; a random mix of data "
-               "operations; data operations racing with table management, clearing and failure toggles; rounds of simultaneous CreateTable calls "
-               "for one name, the winner writing an item; simultaneous Query / Scan through secondary indexes beside a writer) are recorded under the Go race detector "
-               "with invocation / return stamps; TLC searches for a linearization of each history against MiniDyn.tla (violation of the invariant "
-               "= witness). A data race report, a Go fatal error, a hang, or a history TLC exhausts without witness is a violation. Schedules are "
-               "sampled by the Go scheduler, not enumerated (DESIGN.md 7).",
+    level_text="Seeded concurrent histories of both real clients (N concurrent ADD 1; racing attribute_not_exists puts; a random mix of data operations and "
+               "batches; data operations racing with table management, clearing and failure toggles; rounds of simultaneous CreateTable calls for one name a"
+               "nd of simultaneous batches behind a spin barrier; simultaneous reads through secondary indexes beside a writer; a write whose context is can"
+               "celled while the client is busy) are recorded with and without the Go race detector, with invocation / return stamps; TLC searches for a lin"
+               "earization of each history against MiniDyn.tla (violation of the invariant = witness). A data race report, a Go fatal error, a call whose go"
+               "routine is blocked for good, or a history TLC exhausts without witness is a violation. Schedules are sampled by the Go scheduler, not enumer"
+               "ated (DESIGN.md 7).",
     technique="TLA+ specification + TLC linearizability search over recorded concurrent histories of the real clients (TraceLin.tla), Go race detector as monitor",
 )
 
